@@ -361,6 +361,12 @@ func c11VerifyHistory(res *vlib.Result) {
 		{"k1-fresh", mintToken(e.K1, "k1", map[string]any{"alg": "HS256", "typ": "JWT", "kid": "k1"}, claims(now-10))},
 		{"k1-1000s-old", mintToken(e.K1, "k1", map[string]any{"alg": "HS256", "typ": "JWT", "kid": "k1"}, claims(now-1000))},
 		{"pool-1000s-old", mintToken(e.PoolKey, "POOL", nil, claims(now-1000))},
+		// keys whose length is not a multiple of 4: the genuine token, and tokens signed with the key
+		// cut back to a multiple of 4 and zero-padded (what a word-wise descrambler would leave)
+		{"k33-fresh", mintToken([]byte(c11Key33), "k33", map[string]any{"alg": "HS256", "typ": "JWT", "kid": "k33"}, claims(now-10))},
+		{"k33-signed-with-zeroed-tail", mintToken([]byte(c11Key33[:32]+"\x00"), "k33", map[string]any{"alg": "HS256", "typ": "JWT", "kid": "k33"}, claims(now-10))},
+		{"k6-fresh", mintToken([]byte(c11Key6), "k6", map[string]any{"alg": "HS256", "typ": "JWT", "kid": "k6"}, claims(now-10))},
+		{"k6-signed-with-zeroed-tail", mintToken([]byte(c11Key6[:4]+"\x00\x00"), "k6", map[string]any{"alg": "HS256", "typ": "JWT", "kid": "k6"}, claims(now-10))},
 	}
 	// a second key directory: same name k1, different key
 	otherDir := filepath.Join(e.Dir, "keys-other")
@@ -389,6 +395,10 @@ func c11VerifyHistory(res *vlib.Result) {
 	want := func(ti, ci int) bool {
 		if ti < 2 && !cfgs[ci].k1Match {
 			return false // signed by a k1 this verifier does not hold
+		}
+		if ti >= 3 {
+			// the odd-length keys exist only in the usual key directory; the zeroed-tail forgeries never verify
+			return cfgs[ci].k1Match && (ti == 3 || ti == 5)
 		}
 		age := int64(10)
 		if ti >= 1 {
@@ -762,7 +772,7 @@ func c11Verify(res *vlib.Result, label, class, tok string) {
 func C11Plan() *vlib.Plan {
 	p := &vlib.Plan{
 		Property: "C11", Level: "fault_enumeration",
-		Rule:   "E-FAULT: (1) 20 token variants and every single-bit flip of a valid token string, each through a real client/server TOKEN handshake (no cipher, so the AKEP2 result is the result); (2) for each of the three AKEP2 messages: every byte offset (header and payload) x {^01,^80}, truncation at every 8th byte, 1/8 trailing bytes appended, for step 1 a field-aware substitution of the claimed client identity by {bob, empty, +1 char}, and field-aware alterations of every field of every message (status := 1/-1/2/256; each proof, nonce and nonce echo := empty / first byte only / last byte dropped / one zero byte added / all zero / length 0 or length-1 with the bytes kept / several bytes changed so that the differences cancel (2 x ^80, 4 x ^40, 16 x ^10, every byte ^80, 2 x ^55); each identity echo := empty / bob / +1 char); (3) VerifyIDToken on the same variants and bit flips; (4) an independent scripted AKEP2 client (own HKDF/HMAC arithmetic) against the real server: 20 token variants (incl. those cedar's client refuses to send) x claimed identity {the subject, bob, root} x proof {honest, empty, wrong, computed over the identity the server echoed} x RB echo {honest, empty, wrong} x {no, one} trailing byte; (5) time claims AT their limits (exp = now-1 / now / now+1, iat = now / now-max / now-max-1) through VerifyIDToken and through the scripted client, each call aligned on a wall-clock second and kept only if the clock still shows that second afterwards; (6) every token variant with TOKEN and SSL listed on both sides: when the token exchange fails and SSL completes the handshake, the failed token's subject must not become the session's identity; (7) all pairs of successive VerifyIDToken calls over 3 tokens x 4 verifier configurations (usual; one whose credential reader caches and hands out the same bytes on every load; another key under the same key id; shorter maximum age): each verdict is that of the reference for its own configuration, whatever was verified before. Oracle: independent HKDF+HMAC verifier with the same time rules (variants sit 120 s away from the limits); server success => token valid and no client message altered outside the claimed-identity field; client success => server message unaltered; recorded user = token subject. Non-trivial = the mutated element reached the receiving side.",
+		Rule:   "E-FAULT: (1) 20 token variants and every single-bit flip of a valid token string, each through a real client/server TOKEN handshake (no cipher, so the AKEP2 result is the result); (2) for each of the three AKEP2 messages: every byte offset (header and payload) x {^01,^80}, truncation at every 8th byte, 1/8 trailing bytes appended, for step 1 a field-aware substitution of the claimed client identity by {bob, empty, +1 char}, and field-aware alterations of every field of every message (status := 1/-1/2/256; each proof, nonce and nonce echo := empty / first byte only / last byte dropped / one zero byte added / all zero / length 0 or length-1 with the bytes kept / several bytes changed so that the differences cancel (2 x ^80, 4 x ^40, 16 x ^10, every byte ^80, 2 x ^55); each identity echo := empty / bob / +1 char); (3) VerifyIDToken on the same variants and bit flips; (4) an independent scripted AKEP2 client (own HKDF/HMAC arithmetic) against the real server: 20 token variants (incl. those cedar's client refuses to send) x claimed identity {the subject, bob, root} x proof {honest, empty, wrong, computed over the identity the server echoed} x RB echo {honest, empty, wrong} x {no, one} trailing byte; (5) time claims AT their limits (exp = now-1 / now / now+1, iat = now / now-max / now-max-1) through VerifyIDToken and through the scripted client, each call aligned on a wall-clock second and kept only if the clock still shows that second afterwards; (6) every token variant with TOKEN and SSL listed on both sides: when the token exchange fails and SSL completes the handshake, the failed token's subject must not become the session's identity; (7) all pairs of successive VerifyIDToken calls over 7 tokens (incl. tokens under named keys of 33 and 6 bytes and forgeries signed with those keys' 4-aligned, zero-padded prefixes) x 4 verifier configurations (usual; one whose credential reader caches and hands out the same bytes on every load; another key under the same key id; shorter maximum age): each verdict is that of the reference for its own configuration, whatever was verified before. Oracle: independent HKDF+HMAC verifier with the same time rules (variants sit 120 s away from the limits); server success => token valid and no client message altered outside the claimed-identity field; client success => server message unaltered; recorded user = token subject. Non-trivial = the mutated element reached the receiving side.",
 		Assume: []string{"base64 decoding is shared with the code (non-canonical trailing bits that decode identically are the same token)", "time-dependent variants are 120 s away from the boundary"},
 	}
 	p.Gen = func(tier string, yield func(vlib.Case)) {
